@@ -16,7 +16,13 @@ Expand(x, rep) == IF x = <<>> THEN <<>> ELSE (IF Head(x) = "S" THEN rep ELSE <<H
 Rewrites(x) == { <<"S">> \o x \o <<"S">>, <<"S", "S">> \o x, x \o <<"S">>, <<"W">> \o x \o <<"W", "S">>, <<"B">> \o x \o <<"B">>,
                  Expand(x, <<"S", "S">>), Expand(x, <<"W">>), Expand(x, <<"B">>), Expand(x, <<"S", "W", "B">>),
                  x \o <<"C">>, x \o <<"C", "C">> }
+\* two members of the family one after the other: the colon of a label, then the whitespace of the markup around it
+Rewrites2(x) == { x \o <<"C", "S">>, x \o <<"C", "W">>, x \o <<"C", "B">>, <<"S">> \o x \o <<"C", "S", "S">>, <<"S", "S">> \o x \o <<"C">>,
+                  Expand(x, <<"S", "S">>) \o <<"C">>, x \o <<"C", "C", "S">> }
 Clean(x) == x # <<>> /\ San(x) = x /\ ~(\E i \in 1..Len(x) : x[i] \in {"W", "B"})
 WsInvariant == Clean(s) => \A r \in Rewrites(s) : San(r) = s
+ComposedInvariant == Clean(s) => \A r \in Rewrites2(s) : San(r) = s
+\* ... and for strings that are not fixed points (they end in colons, carry whitespace of their own): padding never matters
+PadInvariant == (\E i \in 1..Len(s) : ~IsWs(s[i])) => \A r \in {<<"S">> \o s, s \o <<"S">>, s \o <<"W">>, s \o <<"B">>, <<"S">> \o s \o <<"S">>, <<"B">> \o s} : San(r) = San(s)
 DigitScriptInvariant == Num(San(s)) = San(Num(s))
 =============================================================================
